@@ -30,7 +30,7 @@ decoding from every member order of the envelope and of the parameters, round tr
 field-less variants parameters absent / null / {} - directly and through receive_reply; (reply) \
 Reply<T> with parameters / continues present or absent: only present members are encoded, decoded \
 from both orders, round trip; (proxy-unit) unit-output proxy methods answered with parameters \
-absent / null / {} (+ continues). Non-trivial = a permutation in which a flag precedes `method` or \
+absent / null / {} (+ continues), and a streaming (`more`) unit-output proxy method whose 1..4 items use any sequence of the three spellings. Non-trivial = a permutation in which a flag precedes `method` or \
 `parameters` precedes the tag, or a {} / null spelling of 'no parameters'; distinct by hash of \
 (lane, text).";
 
@@ -661,6 +661,71 @@ fn proxy_unit_frames() -> Vec<(&'static str, bool)> {
     ]
 }
 
+/// A streaming (`more`) proxy method with unit items: every item may spell 'no parameters' in any of
+/// the three ways. `spellings[i]` selects the spelling of item i; the last item ends the stream.
+fn check_proxy_unit_stream(spellings: &[u8], stats: &mut Stats) -> CaseResult {
+    use futures_util::StreamExt;
+    stats.eval();
+    let n = spellings.len();
+    let mut script = Vec::new();
+    let mut data = Vec::new();
+    for (i, sp) in spellings.iter().enumerate() {
+        let last = i == n - 1;
+        let params = match sp % 3 {
+            0 => None,
+            1 => Some("null"),
+            _ => Some("{}"),
+        };
+        let mut members = Vec::new();
+        if let Some(p) = params {
+            members.push(format!("\"parameters\":{p}"));
+        }
+        if !last {
+            members.push("\"continues\":true".to_string());
+        } else if sp % 2 == 0 {
+            members.push("\"continues\":false".to_string());
+        }
+        if sp % 5 == 0 {
+            members.reverse();
+        }
+        data.extend(format!("{{{}}}", members.join(",")).into_bytes());
+        data.push(0);
+    }
+    script.push(ReadEv::Data(data.clone()));
+    let (sock, handle) = SimSocket::with_script(script);
+    let mut conn = Connection::new(sock);
+    let stream = match run_until_ready(conn.watch(), 8) {
+        Some(Ok(s)) => s,
+        other => return Err(Fail::new("proxy-stream", format!("watch(): {:?}", other.map(|r| r.map(|_| ())))),),
+    };
+    let mut stream = std::pin::pin!(stream);
+    let mut got = Vec::new();
+    for _ in 0..n + 1 {
+        match run_until_ready(stream.next(), 8) {
+            Some(Some(item)) => got.push(format!("{item:?}")),
+            Some(None) => break,
+            None => {
+                got.push("<pending>".into());
+                break;
+            }
+        }
+    }
+    let sent = handle.written();
+    let sent: Value = serde_json::from_slice(&sent[..sent.len().saturating_sub(1)]).unwrap_or(Value::Null);
+    if sent != json!({"method": "org.example.Px.Watch", "more": true}) {
+        return Err(Fail::new("proxy-call-wire", format!("streaming proxy sent {sent}")));
+    }
+    let want: Vec<String> = (0..n).map(|_| "Ok(Ok(()))".to_string()).collect();
+    if got != want {
+        let sig = if String::from_utf8_lossy(&data).contains("{}") { "unit-output-empty-object-params" } else { "unit-output-reply" };
+        return Err(Fail::new(
+            sig,
+            format!("streaming unit-output proxy method answered with {}: expected {n} x Ok(Ok(())) then the end, got {got:?}", vcommon::ev::show_bytes(&data)),
+        ));
+    }
+    Ok(())
+}
+
 fn check_proxy_unit(frame: &str, which: u8, stats: &mut Stats) -> CaseResult {
     stats.eval();
     let mut data = frame.as_bytes().to_vec();
@@ -774,6 +839,33 @@ pub fn run(ctx: &Ctx) -> i32 {
     });
     stats.merge(s5);
     viol.extend(v5);
+    // streaming unit-output method: all spelling sequences of length 1..=4 (3 spellings x order/flag variants)
+    let mut seqs: Vec<Vec<u8>> = Vec::new();
+    for len in 1..=4usize {
+        let count = 30usize.pow(len as u32).min(4000);
+        for k in 0..count {
+            let mut v = Vec::new();
+            let mut x = k * 7919 + len;
+            for _ in 0..len {
+                v.push((x % 30) as u8);
+                x /= 30;
+            }
+            seqs.push(v);
+        }
+    }
+    let (s7, v7) = par_enumerate(ctx, "proxy-unit-stream", seqs.len() as u64, |i, stats| {
+        let sp = &seqs[i as usize];
+        stats.class("proxy-unit-stream");
+        if sp.iter().any(|s| s % 3 != 0) {
+            stats.nontrivial_hash(hash_of(&("proxy-unit-stream", sp)));
+        }
+        match check_proxy_unit_stream(sp, stats) {
+            Ok(()) => vec![],
+            Err(f) => vec![(f, json!({"spellings": sp}))],
+        }
+    });
+    stats.merge(s7);
+    viol.extend(v7);
     Report::new(RULE)
         .assume("decoding is always from JSON text (serde_json::from_str / the receive path), as on the wire; the reference decode of a user-defined method type is that type's own Deserialize applied to the object without the flag members")
         .assume("expected encodings of the error enums are written by hand next to each value; for Option fields of error variants both null and omission are accepted on encode (the statement does not fix it)")
@@ -807,6 +899,10 @@ pub fn replay(lane: &str, case: Value) -> CaseResult {
                 1 => check_reply::<StrictParams>(name.map(|name| StrictParams { name, n: n.unwrap_or(0) }), continues, &mut stats),
                 _ => check_reply::<Value>(name.map(|s| json!({"k": [s, n], "deep": {"x": n}})), continues, &mut stats),
             }
+        }
+        "proxy-unit-stream" => {
+            let sp: Vec<u8> = serde_json::from_value(case["spellings"].clone()).map_err(bad)?;
+            check_proxy_unit_stream(&sp, &mut stats)
         }
         "proxy-unit" => {
             let frame = case["frame"].as_str().unwrap_or("{}").to_string();
